@@ -87,6 +87,9 @@ def parseInput (s : Sim) (tok : String) : Option In :=
     let tk : Option Bytes := match t with
       | "v" => some base
       | "w" => some (match base with | b :: r => (b ^^^ 0x55) :: r | [] => [0x55])
+      | "p" => some (base.take 2)      -- a proper prefix of the issued token
+      | "z" => some []                 -- the empty token
+      | "l" => some (base ++ [0])      -- one byte more
       | _ => none
     let sc : Option Bytes := match c with
       | "k" => some secret16
